@@ -8,6 +8,7 @@ import (
 	"flag"
 	"fmt"
 	"os"
+	"os/exec"
 	"path/filepath"
 	"sort"
 	"strings"
@@ -37,6 +38,32 @@ type ReplayFile struct {
 	Original   *Scenario     `json:"original_scenario,omitempty"`
 	Trace      []string      `json:"trace_tail,omitempty"`
 	Note       string        `json:"note,omitempty"`
+	Batch      *BatchSpec    `json:"batch,omitempty"`
+}
+
+// BatchSpec describes a replay that must re-execute a worker's whole run sequence: used when the
+// code under test keeps process-global state, so that a run depends on the runs before it and the
+// minimised single-run replay does not reproduce in a fresh process.
+type BatchSpec struct {
+	Prop    string `json:"prop"`
+	Tier    string `json:"tier"`
+	Seed    uint64 `json:"seed"`
+	Worker  int    `json:"worker"`
+	Workers int    `json:"workers"`
+	Index   uint64 `json:"index"`
+}
+
+func freshReplay(path string) int {
+	cmd := exec.Command(os.Args[0], "-replay", path)
+	cmd.Env = os.Environ()
+	err := cmd.Run()
+	if err == nil {
+		return 0
+	}
+	if ee, ok := err.(*exec.ExitError); ok {
+		return ee.ExitCode()
+	}
+	return 2
 }
 
 func decisionsOf(rf *ReplayFile) []string {
@@ -135,6 +162,7 @@ func main() {
 	merge := flag.String("merge", "", "merge hash files matching this glob and print the union size")
 	dumpSeed := flag.Int64("dump", -1, "print the scenario of this run index and exit")
 	dethash := flag.Int("dethash", 0, "determinism mode: print 'index hash seq' for this many runs and exit")
+	replayTest := flag.Int("replaytest", 0, "determinism mode: record N runs, replay each by name, compare event-log hashes")
 	skip := flag.Int("skip", 0, "determinism mode: run this many other runs first (batch-position independence)")
 	flag.Parse()
 
@@ -174,6 +202,25 @@ func main() {
 			sc, _, _ := scenarioFor(idx)
 			res := Execute(sc, simrt.NewRandomChooser(sc.ChSeed, sc.Policy, false), false)
 			fmt.Printf("%d %016x %d %016x %s\n", idx, res.Hash, res.Seq, res.HistHash, res.Verdict)
+		}
+		return
+	}
+	if *replayTest > 0 {
+		bad, dec := 0, 0
+		for i := 0; i < *replayTest; i++ {
+			sc, _, _ := scenarioFor(uint64(*worker + i**workers))
+			c := simrt.NewRandomChooser(sc.ChSeed, sc.Policy, true)
+			r1 := Execute(sc, c, false)
+			dec += len(c.Log)
+			rc := &simrt.ReplayChooser{Log: c.Log}
+			r2 := Execute(sc, rc, false)
+			if r1.Hash != r2.Hash || r1.Seq != r2.Seq || rc.Miss != 0 {
+				bad++
+			}
+		}
+		fmt.Printf("replaytest runs=%d decisions=%d mismatches=%d\n", *replayTest, dec, bad)
+		if bad > 0 {
+			os.Exit(1)
 		}
 		return
 	}
@@ -296,6 +343,22 @@ func main() {
 			b, _ := json.MarshalIndent(rf, "", " ")
 			os.MkdirAll(*replayDir, 0o755)
 			os.WriteFile(path, b, 0o644)
+			if freshReplay(path) != 1 {
+				// The minimised run reproduces in this process but not in a fresh one: the code under
+				// test carries state from one Run to the next. Fall back to replaying this worker's
+				// whole sequence up to the failing run.
+				orig := makeReplay(*prop, *seed, idx, rs, &found{sc, nil, r2}, nil)
+				orig.NDecisions, orig.NonDefault = 0, nil
+				orig.Batch = &BatchSpec{Prop: *prop, Tier: *tier, Seed: *seed, Worker: *worker, Workers: *workers, Index: idx}
+				orig.Note = "batch replay: the violation depends on process state left behind by earlier runs (the minimised single-run replay did not reproduce in a fresh process); replaying re-executes runs " + fmt.Sprint(*worker) + ", " + fmt.Sprint(*worker+*workers) + ", ... up to the failing index"
+				b, _ := json.MarshalIndent(orig, "", " ")
+				os.WriteFile(path, b, 0o644)
+				if freshReplay(path) != 1 {
+					w.Inconclusive = fmt.Sprintf("run %d: violation %s reproduces neither as a single run nor as a batch in a fresh process", idx, mine.Oracle)
+					break
+				}
+				rf = orig
+			}
 			w.Violation = rf
 			w.ReplayPath = path
 			break
@@ -351,6 +414,9 @@ func doReplay(path string) int {
 		fmt.Fprintln(os.Stderr, "bad replay file:", err)
 		return 2
 	}
+	if rf.Batch != nil {
+		return doBatchReplay(path, &rf)
+	}
 	res, ok := replay(&rf, true)
 	fmt.Printf("replaying %s: property=%s oracle=%s\n", path, rf.Property, rf.Oracle)
 	for _, c := range rf.History {
@@ -395,4 +461,33 @@ func mergeHashes(glob string) {
 		}
 	}
 	fmt.Println(n)
+}
+
+func doBatchReplay(path string, rf *ReplayFile) int {
+	b := rf.Batch
+	opts := GenOpts{Prop: b.Prop, Thorough: b.Tier == "thorough"}
+	fmt.Printf("batch-replaying %s: property=%s oracle=%s worker %d of %d up to run index %d\n", path, rf.Property, rf.Oracle, b.Worker, b.Workers, b.Index)
+	for i := 0; ; i++ {
+		idx := uint64(b.Worker) + uint64(i)*uint64(b.Workers)
+		if idx > b.Index {
+			break
+		}
+		rs := simrt.Mix(b.Seed, propNum[b.Prop], idx)
+		var sc *Scenario
+		if idx%4 == 3 {
+			sc = GenerateSweep(idx/4, rs, opts)
+		} else {
+			sc = Generate(rs, opts)
+		}
+		res := Execute(sc, simrt.NewRandomChooser(sc.ChSeed, sc.Policy, false), false)
+		if idx == b.Index {
+			if v := firstMatching(res, rf.Property, rf.Oracle); v != nil {
+				fmt.Printf("  violation %s/%s at seq %d: %s\n", v.Prop, v.Oracle, v.Seq, v.Msg)
+				fmt.Printf("VIOLATION property=%s replay=%s\n", rf.Property, path)
+				return 1
+			}
+		}
+	}
+	fmt.Println("the batch does not violate the property on this tree (the recorded violation is gone)")
+	return 0
 }
